@@ -13,15 +13,15 @@ import (
 )
 
 type c20out struct {
-	RuneLits      int            `json:"rune_literals"`
-	ByKind        map[string]int `json:"by_kind"`
-	DistinctRunes int            `json:"distinct_code_points"`
-	IntLits       int            `json:"int_literals"`
-	IntOK         int            `json:"int_literals_valid"`
-	IntErr        int            `json:"int_literals_rejected"`
+	RuneLits      int                                     `json:"rune_literals"`
+	ByKind        map[string]int                          `json:"by_kind"`
+	DistinctRunes int                                     `json:"distinct_code_points"`
+	IntLits       int                                     `json:"int_literals"`
+	IntOK         int                                     `json:"int_literals_valid"`
+	IntErr        int                                     `json:"int_literals_rejected"`
 	Violations    []struct{ Kind, Lit, Want, Got string } `json:"violations"`
-	NViol         int            `json:"n_violations"`
-	Samples       []string       `json:"samples"`
+	NViol         int                                     `json:"n_violations"`
+	Samples       []string                                `json:"samples"`
 }
 
 const c20Main = `package main
